@@ -38,3 +38,17 @@ Theorem C15_refuted_without_close_on_timeout :
   st (krun false 1 [KIssue; KTimeout 0; KIssue; KRespond 0]) 1 = Fulfilled 0.
 Proof. exact late_response_mismatch_without_close. Qed.
 Print Assumptions C15_refuted_without_close_on_timeout.
+
+(* The hand-over between threads (Client::doRequest queues in a second step; a completing thread releases the
+   connection and looks at the queue in two steps; every interleaving of any number of threads over any number of
+   connections): a request is never left queued beside an idle connection with no thread left to look at the queue ... *)
+Theorem C15_no_request_left_queued_beside_an_idle_connection : forall m evs, h_stuck (hrun true m evs) = false.
+Proof. exact handover_never_stuck. Qed.
+Print Assumptions C15_no_request_left_queued_beside_an_idle_connection.
+
+(* ... which the pinned code (no second look at the queue after queueing, fixed by 5005dd0) violates in 5 steps;
+   replayed on the implementation as the L cases *)
+Theorem C15_refuted_without_second_look :
+  h_stuck (hrun false 1 [HPickOk; HPickFail; HRelease; HProcess; HEnqueue]) = true.
+Proof. exact handover_stuck_without_recheck. Qed.
+Print Assumptions C15_refuted_without_second_look.
